@@ -39,6 +39,7 @@ type job struct {
 	cases []caseSpec
 	memKB uint64
 	wall  time.Duration
+	procs int // GOMAXPROCS of the child (every OS thread costs 8 MiB of the data-segment cap)
 }
 
 type jobResult struct {
@@ -99,10 +100,26 @@ var reFatal = regexp.MustCompile(`(?m)^(panic: .*|fatal error: .*|runtime: out o
 // classifyCrash turns the stderr of a dead child into (signature, description, stack excerpt)
 var reOOM = regexp.MustCompile(`cannot allocate (\d+)-byte block \((\d+) in use\)`)
 
+// weakOOM: set by classifyCrash when an out-of-memory death carries no evidence that the allocation
+// in progress was itself a large one (the child may have been worn out by earlier inputs)
+var reBigSite = regexp.MustCompile(`:reflect\.(New|makemap|MakeSlice|MakeMapWithSize|MakeMap)$|^lib\.Decompress`)
+
 func classifyCrash(stderr string, exit string, inputLen int, memKB uint64) (sig, what, excerpt string) {
+	sig, what, excerpt, _ = classifyCrashW(stderr, exit, inputLen, memKB)
+	return
+}
+
+func classifyCrashW(stderr string, exit string, inputLen int, memKB uint64) (sig, what, excerpt string, weak bool) {
 	loc := reFatal.FindStringIndex(stderr)
+	for _, envErr := range []string{"pthread_create failed", "failed to create new OS thread", "newosproc", "Resource temporarily unavailable"} {
+		if strings.Contains(stderr, envErr) {
+			// the operating system refused a thread: says nothing about the code under test
+			return "", "child process could not create a thread (" + envErr + ")", trunc(stderr, 300), false
+		}
+	}
 	if loc == nil {
-		return "crash-killed/" + exit, "child process died without a Go panic/fatal message (" + exit + ")", trunc(stderr, 1500)
+		// no Go panic / fatal error: killed from outside or an environment problem, not an observation
+		return "", "child process died without a Go panic/fatal message (" + exit + "): " + trunc(stderr, 200), trunc(stderr, 1500), false
 	}
 	msgs := reFatal.FindAllString(stderr, 4)
 	rest := stderr[loc[0]:]
@@ -122,8 +139,12 @@ func classifyCrash(stderr string, exit string, inputLen int, memKB uint64) (sig,
 	case strings.Contains(head, "out of memory") || strings.Contains(head, "cannot allocate memory"):
 		sig = friendlySig("alloc-amplification/" + site)
 		head += " (at " + site + ")"
+		weak = !reBigSite.MatchString(site)
 		if m := reOOM.FindStringSubmatch(stderr); m != nil {
 			req, _ := strconv.ParseUint(m[1], 10, 64)
+			if req >= 32<<20 {
+				weak = false
+			}
 			inuse, _ := strconv.ParseUint(m[2], 10, 64)
 			if req+inuse < allocBound(inputLen)+(32<<20) {
 				// the memory cap was hit before the call provably exceeded the proportionality bound
@@ -171,6 +192,9 @@ func runJob(j job) jobResult {
 		so, _ := os.Create(fmt.Sprintf("%s.a%d.stdout", base, attempt))
 		cmd := exec.Command(binPath())
 		cmd.Env = append(os.Environ(), "C16_CHILD_SPEC="+specPath, "GOTRACEBACK=all")
+		if j.procs > 0 {
+			cmd.Env = append(cmd.Env, fmt.Sprintf("GOMAXPROCS=%d", j.procs))
+		}
 		cmd.Stdout, cmd.Stderr = so, se
 		cmd.SysProcAttr = &syscall.SysProcAttr{Pdeathsig: syscall.SIGKILL}
 		res.starts++
@@ -195,7 +219,11 @@ func runJob(j job) jobResult {
 			res.cpu += cmd.ProcessState.UserTime() + cmd.ProcessState.SystemTime()
 		}
 		v, g, finished := readRecords(sp.Result)
-		res.viols = append(res.viols, v...)
+		for _, x := range v {
+			if x.Sig != "" {
+				res.viols = append(res.viols, x)
+			}
+		}
 		res.groups = append(res.groups, g...)
 		if finished {
 			os.Remove(sp.Progress)
@@ -224,7 +252,7 @@ func runJob(j job) jobResult {
 			}
 			sig, what, excerpt := classifyCrash(string(stderr), exit, n, j.memKB)
 			if sig == "" {
-				res.incon[cs.ID] = "child ran out of memory under RLIMIT_AS before the allocation bound of the input was exceeded: " + trunc(what, 200)
+				res.incon[cs.ID] = "child died, not attributable to the input (memory cap hit below the bound of the input, or no Go panic/fatal error): " + trunc(what, 200)
 				resume, resumeIdx = ci, idx+1
 				continue
 			}
@@ -254,7 +282,13 @@ type caseAcc struct {
 	have  bool
 }
 
+// C16_FILTER (development aid, e.g. mutation sanity runs): regular expression over case ids
+var caseFilter *regexp.Regexp
+
 func want(id string) bool {
+	if caseFilter != nil && !caseFilter.MatchString(id) {
+		return false
+	}
 	o := hk.Only()
 	return o == "" || o == id || strings.HasPrefix(o, id+"#")
 }
@@ -282,11 +316,14 @@ func main() {
 	os.MkdirAll(outDir, 0o755)
 	registerTypes()
 	setupEDF()
+	if f := os.Getenv("C16_FILTER"); f != "" {
+		caseFilter = regexp.MustCompile(f)
+	}
 
 	hk.Rule("case = (target, option set, mutation class, corpus item or batch); enumerative classes (truncation at every offset; every 1/2/4-byte window overwritten with boundary values up to 2^32-1; every byte replaced by every EDF type tag) are complete per valid encoding, random classes (bit flips, multi-edits, splices, unknown cache ids, random type descriptors with nested arrays/maps/slices, PRNG bytes) are functions of (seed, case id, index); handshake: message k of a real Start/Accept/Join exchange replaced by its mutation; live: recorded valid frames mutated (frame length 0..7 and > max, truncation with fixed-up length, body edits, compression envelopes with false sizes, envelope chains) and written on an authenticated raw link. A case is non-trivial iff at least one of its inputs was parsed past the first field (decode succeeded, or failed with an error class other than unknown-type/empty input; handshake: the mutated message was read by the peer under test; live: the frame reached the receive queue handler or the length check of the reader). Distinct = target x class x most frequent non-trivial outcome class.")
 	hk.Assume("out of proportion = more than 64 MiB + 4096 x input bytes of cumulative heap allocation during the call (runtime/metrics /gc/heap/allocs:bytes), or the child dying of out-of-memory under RLIMIT_AS; hanging = more than 30 s of process CPU time inside one call (rusage)")
-	hk.Assume("inputs that begin with a type descriptor whose array lengths multiply to more than 64 MiB of element storage (a static property of the input bytes) are executed only 3 times per case, the rest is counted as skipped: on a tree that allocates by the declared array length each of them costs a child process")
-	hk.Assume("a case stops executing inputs after 3 expensive violations (child crash, CPU hang, allocation out of proportion: each costs a child process or seconds of page zeroing); the remaining inputs of that case are counted as not executed. Without such violations every input is executed")
+	hk.Assume("inputs that begin with a type descriptor whose array lengths multiply to more than 64 MiB of element storage (a static property of the input bytes) are executed only 2 times per case, the rest is counted as skipped: on a tree that allocates by the declared array length each of them costs a child process")
+	hk.Assume("a case stops executing inputs after 2 expensive violations (child crash, CPU hang, allocation out of proportion: each costs a child process or seconds of page zeroing); the remaining inputs of that case are counted as not executed. Without such violations every input is executed")
 	hk.Assume("a panic recovered inside edf.Decode / the receive queue handler and turned into an error / a closed connection satisfies the property; such recoveries are counted, not reported")
 	hk.Assume("value equality after re-encoding: same dynamic type and content, floats by bits, errors by text, nil and empty containers not distinguished, time.Time by instant and zone offset")
 
@@ -476,8 +513,8 @@ func main() {
 		hk.Stat("outcome/"+k, outcomeTotals[k])
 	}
 	hk.Stat("child_process_starts", starts)
-	hk.Stat("inputs_not_executed_after_3_expensive_violations_in_their_case", notExecuted)
-	hk.Stat("inputs_skipped_as_predicted_alloc_bombs_beyond_3_per_case", skippedBombs)
+	hk.Stat("inputs_not_executed_after_2_expensive_violations_in_their_case", notExecuted)
+	hk.Stat("inputs_skipped_as_predicted_alloc_bombs_beyond_2_per_case", skippedBombs)
 	hk.Stat("panics_recovered_inside_decode", recovered)
 	hk.StatMax("max_alloc_bytes_in_one_decode_call_without_violation_or_with", maxAlloc)
 	hk.Note("children_wall_s", time.Since(t0).Seconds())
@@ -507,7 +544,8 @@ func topKeysAll(m map[string]int64, n int) []string { return topKeys(m, n) }
 
 func edfJobs() []job {
 	var jobs []job
-	const mem = 512 << 10 // KiB: 512 MiB of data segment (RLIMIT_DATA) on top of what the child has at start
+	const mem = 512 << 10     // KiB: directed cases: 512 MiB of data segment (RLIMIT_DATA) on top of what the child has at start
+	const memBulk = 192 << 10 // KiB: bulk cases (inputs of a few hundred bytes, bound about 68 MiB)
 	wall := 10 * time.Minute
 	// directed suspicions, one child each (some of them end the child)
 	thoroughOnly := map[string]bool{"array-of-zero-size-nested": true, "any-chain-24m": true, "array-of-empty-struct-2^32": true, "array-typedesc-1g-uint64": true, "regmap-count-2^28": true}
@@ -520,7 +558,7 @@ func edfJobs() []job {
 			if !want(id) {
 				continue
 			}
-			jobs = append(jobs, job{name: "edf-directed-" + d.name, mode: "edf", memKB: mem, wall: wall,
+			jobs = append(jobs, job{name: "edf-directed-" + d.name, mode: "edf", memKB: mem, wall: wall, procs: 2,
 				cases: []caseSpec{{ID: id, Target: "edf", Opt: o, Class: "directed", Item: i, Only: -1, MaxStackMB: maxStackFor(d.name)}}})
 		}
 	}
@@ -560,7 +598,7 @@ func edfJobs() []job {
 		for i := k; i < len(cases); i += nj {
 			cs = append(cs, cases[i])
 		}
-		jobs = append(jobs, job{name: fmt.Sprintf("edf-%02d", k), mode: "edf", memKB: mem, wall: wall, cases: cs})
+		jobs = append(jobs, job{name: fmt.Sprintf("edf-%02d", k), mode: "edf", memKB: memBulk, wall: wall, cases: cs, procs: 2})
 	}
 	return jobs
 }
